@@ -228,6 +228,7 @@ local JSExprFn jcStringSExpr;
 
 local JavaCodeList jc0CreateModifiers(int modifiers);
 local void jc0PrintWithParens(JavaCodePContext ctxt, JavaCodeClass oclss, JavaCode arg);
+local void jc0PrintOperand(JavaCodePContext ctxt, JavaCodeClass oclss, JavaCode arg, Bool parenAtEqualPrec);
 local Bool jc0NeedsParens(JavaCodeClass c1, JavaCodeClass c2);
 local String jc0EscapeString(String s, Bool terminal);
 local Bool jcBlockHdrIndent(JavaCode code);
@@ -308,10 +309,10 @@ static struct jclss jcClss[] = {
 
 	{ JCO_CLSS_Not,     jcUnaryOpPrint,jcNodeSExpr, "not",    "!",    13,JCO_LR },
 	{ JCO_CLSS_LogAnd,  jcBinOpPrint,  jcNodeSExpr, "and",    " && ", 4, JCO_LR },
-	{ JCO_CLSS_LogOr,   jcBinOpPrint,  jcNodeSExpr, "or",     " || ", 4, JCO_LR },
+	{ JCO_CLSS_LogOr,   jcBinOpPrint,  jcNodeSExpr, "or",     " || ", 3, JCO_LR },
 	{ JCO_CLSS_And,     jcBinOpPrint,  jcNodeSExpr, "and",    " & ", 7, JCO_LR },
-	{ JCO_CLSS_Or,      jcBinOpPrint,  jcNodeSExpr, "or",     " | ", 7, JCO_LR },
-	{ JCO_CLSS_XOr,      jcBinOpPrint,  jcNodeSExpr, "xor",     " ^ ", 7, JCO_LR },
+	{ JCO_CLSS_Or,      jcBinOpPrint,  jcNodeSExpr, "or",     " | ", 5, JCO_LR },
+	{ JCO_CLSS_XOr,      jcBinOpPrint,  jcNodeSExpr, "xor",     " ^ ", 6, JCO_LR },
 	{ JCO_CLSS_Equals,  jcBinOpPrint,  jcNodeSExpr, "equal",  " == ", 8, JCO_LR },
 	{ JCO_CLSS_NEquals, jcBinOpPrint,  jcNodeSExpr, "nequal", " != ", 8, JCO_LR },
 	{ JCO_CLSS_Assign,  jcBinOpPrint,  jcNodeSExpr, "assign", " = ",  1, JCO_RL },
@@ -1216,9 +1217,27 @@ jcBinOpPrint(JavaCodePContext ctxt, JavaCode code)
 	JavaCode lhs = jcoArgv(code)[0];
 	JavaCode rhs = jcoArgv(code)[1];
 
-	jc0PrintWithParens(ctxt, thisClss, lhs);
+	jc0PrintOperand(ctxt, thisClss, lhs, thisClss->assoc == JCO_RL);
 	jcoPContextWrite(ctxt, thisClss->txt);
-	jc0PrintWithParens(ctxt, thisClss, rhs);
+	jc0PrintOperand(ctxt, thisClss, rhs, thisClss->assoc == JCO_LR);
+}
+
+/*
+ * An operand of the same precedence needs parentheses when it is on the
+ * side the operator does not associate to:  a - (b - c).
+ */
+local void
+jc0PrintOperand(JavaCodePContext ctxt, JavaCodeClass oClss, JavaCode arg,
+		Bool parenAtEqualPrec)
+{
+	JavaCodeClass aClss = jcoClass(arg);
+	if (parenAtEqualPrec && aClss->prec != 0 && aClss->prec == oClss->prec) {
+		jcoPContextWrite(ctxt, "(");
+		jcoWrite(ctxt, arg);
+		jcoPContextWrite(ctxt, ")");
+	}
+	else
+		jc0PrintWithParens(ctxt, oClss, arg);
 }
 
 local void
